@@ -741,7 +741,13 @@ Proof.
     - apply andb_true_iff in Hkw as [Hkw Hnc]. apply andb_true_iff in Hkw as [Hkw Hi]. apply andb_true_iff in Hkw as [_ K3].
       apply Nat.eqb_eq in Hi. subst i. cbn in Hnth. injection Hnth as ->. apply onat_eqb_true in K3.
       rewrite KW, K3. now apply select_none. }
-  rewrite SEL. rewrite Hanon2.
+  rewrite SEL.
+  assert (NK : is_nil (c_kw c) && (match r_pos r with Some p => p <? length FR | None => false end) = false).
+  { rewrite Rpos. destruct (L_K L) as [k|].
+    - destruct KW as [_ [K2 _]]. destruct (c_kw c); [contradiction|reflexivity].
+    - apply andb_false_r. }
+  rewrite NK.
+  rewrite Hanon2.
   assert (EN' : [] ++ (if 1 <? length (split_on DOT name) then join [DOT] (init_strs (split_on DOT name)) ++ [DOT] else []) ++ relname = name).
   { cbn [app]. exact Hpar. }
   rewrite EN'.
@@ -841,15 +847,28 @@ Theorem reject_too_many g st ns net name fields rest ty id rules :
   match_type g (last_str (split_on DOT name)) = Some (ty, id) ->
   assoc_get ty (g_dict g) = Some rules -> rules <> [] ->
   Forall (fun r => length (r_params r) < length fields) rules ->
-  parse_cpt g st ns net name fields rest = Err ETooMany.
+  parse_cpt g st ns net name fields rest = Err ETooMany
+  \/ parse_cpt g st ns net name fields rest = Err EUnknownKw.
 Proof.
   unfold no_empty_ns. intros Hn Hm Hd Hne Hall. apply negb_true_iff in Hn. unfold parse_cpt. rewrite Hn, Hm, Hd. destruct rules as [|r0 rs]; [contradiction|].
   pose proof (select_in (r0 :: rs) fields r0 None) as Hin.
   destruct (select (r0 :: rs) fields r0 None) as [[r kw] leak]. cbn [fst] in Hin.
   assert (Hr : length (r_params r) < length fields).
   { rewrite Forall_forall in Hall. destruct Hin as [<-|Hin]; apply Hall; [now left|exact Hin]. }
+  destruct (is_nil kw && match r_pos r with Some p => p <? length fields | None => false end); [now right|left].
   destruct (if is_nil id && str_in ty anon_types || str_eqb id [QM] then make_anon st ty else _) as [relname' st'].
   now rewrite reject_too_many_fields.
+Qed.
+(* an unknown word where the type expects a keyword *)
+Theorem reject_unknown_keyword g st ns net name fields rest ty id r0 rs r leak p :
+  no_empty_ns name = true ->
+  match_type g (last_str (split_on DOT name)) = Some (ty, id) ->
+  assoc_get ty (g_dict g) = Some (r0 :: rs) ->
+  select (r0 :: rs) fields r0 None = (r, [], leak) -> r_pos r = Some p -> p < length fields ->
+  parse_cpt g st ns net name fields rest = Err EUnknownKw.
+Proof.
+  unfold no_empty_ns. intros Hn Hm Hd Hs Hp Hl. apply negb_true_iff in Hn. unfold parse_cpt. rewrite Hn, Hm, Hd, Hs, Hp.
+  cbn [is_nil andb]. apply Nat.ltb_lt in Hl. now rewrite Hl.
 Qed.
 
 (* too few nodes *)
@@ -1109,7 +1128,13 @@ Proof.
   rewrite <- ER in *.
   assert (SEL : select rules FR r0 None = (r, c_kw c, c_kwpos c)).
   { apply (select_print g rules i r c FR eq_refl Hnth Rpos Hnl Hkw r0). now rewrite ER. }
-  rewrite SEL. rewrite Hid, Hin. cbn [andb orb].
+  rewrite SEL.
+  assert (NK : is_nil (c_kw c) && (match r_pos r with Some p => p <? length FR | None => false end) = false).
+  { rewrite Rpos. destruct (L_K L) as [k|].
+    - destruct KW as [_ [K2 _]]. destruct (c_kw c); [contradiction|reflexivity].
+    - apply andb_false_r. }
+  rewrite NK.
+  rewrite Hid, Hin. cbn [andb orb].
   destruct (make_anon st (r_type r)) as [d st'] eqn:EM. cbn [fst snd].
   pose proof (process_print_gen ds r c ([] ++ (if 1 <? length (split_on DOT pn) then join [DOT] (init_strs (split_on DOT pn)) ++ [DOT] else []) ++ d) d RA Hnl Hdot) as PP.
   fold L in PP. rewrite ELA, Eargs in PP. unfold FAof in PP. rewrite Eargs in PP. cbn [fmtargs elide length map skipn app norm_args req_ok forallb] in PP.
